@@ -122,17 +122,16 @@ class Sensor(ABC):
 
     def _setInitialBoresight(self) -> ndarray:
         """Determine the initial boresight vector as the center of the field of regard."""
-        if self.az_mask[0] < self.az_mask[1]:
-            mid_az = self.az_mask[0] + (self.az_mask[1] - self.az_mask[0]) / 2.0
-        else:
-            mid_az = self.az_mask[1] + (self.az_mask[0] - self.az_mask[1]) / 2.0
+        # Middle of the azimuth mask, going clockwise from its first to its second limit (it may wrap through north)
+        mid_az = self.az_mask[0] + ((self.az_mask[1] - self.az_mask[0]) % (2 * const.PI)) / 2.0
 
         if self.el_mask[0] < self.el_mask[1]:
             mid_el = self.el_mask[0] + (self.el_mask[1] - self.el_mask[0]) / 2.0
         else:
             mid_el = self.el_mask[1] + (self.el_mask[0] - self.el_mask[1]) / 2.0
 
-        return array([cos(mid_el) * cos(mid_az), cos(mid_el) * sin(mid_az), sin(mid_el)])
+        # SEZ components of a unit vector at (azimuth from north, elevation): the S axis points south
+        return array([-cos(mid_el) * cos(mid_az), cos(mid_el) * sin(mid_az), sin(mid_el)])
 
     def collectObservations(
         self,
